@@ -90,6 +90,24 @@ func main() {
 		}
 		counter := 0
 		kept := 0
+		// `case a || b:` of a tagless switch: one branch per condition
+		if split, notes := normalize.SplitCaseOr(pr, cur); len(split) > 0 {
+			next := map[string][]byte{}
+			for k, v := range cur {
+				next[k] = v
+			}
+			for k, v := range split {
+				next[k] = v
+			}
+			if prog2, err2 := load.Load(load.Options{Dir: *repo, Overlay: next, GOARCH: *goarch}); err2 == nil {
+				pr, cur = prog2, next
+				for _, n := range notes {
+					normNotes = append(normNotes, tag+n)
+				}
+			} else {
+				normNotes = append(normNotes, tag+"case splitting abandoned (overlay does not type-check)")
+			}
+		}
 		for round := 0; round < 9; round++ {
 			res := normalize.RoundKeep(pr, rules.CanonicalName(pr), cur, &counter, keep)
 			for _, sk := range res.Skipped {
